@@ -636,6 +636,35 @@ def rec_templates():
             qargs = [V("_c0"), V("Y")] if which == 0 else [V("X"), V("_c0")]
             out.append({"rules": rs + [{"head": ("__query__", qargs), "body": [("pos", "r", qargs), ("cmp", V("_c0"), "=", C(1))]}],
                         "query": "__query__"})
+    out.extend(rec_ref_templates())
+    return out
+
+
+def rec_ref_templates():
+    """Bound recursive queries in which the recursive relation is ALSO referenced elsewhere: by a view, twice in the
+    query, under negation, or with two different constants.  Magic sets restrict the relation to the query's constant;
+    every other reference still needs the whole relation."""
+    out = []
+    base = {"head": ("r", [V("X"), V("Y")]), "body": [("pos", "e", [V("X"), V("Y")])]}
+    left = {"head": ("r", [V("X"), V("Z")]), "body": [("pos", "r", [V("X"), V("Y")]), ("pos", "e", [V("Y"), V("Z")])]}
+    right = {"head": ("r", [V("X"), V("Z")]), "body": [("pos", "e", [V("X"), V("Y")]), ("pos", "r", [V("Y"), V("Z")])]}
+    for rec, which in ((left, 0), (right, 1)):
+        def bq(free):
+            return [V("_c0"), V(free)] if which == 0 else [V(free), V("_c0")]
+        eq = ("cmp", V("_c0"), "=", C(1))
+        view = {"head": ("v", [V("X")]), "body": [("pos", "r", [V("X"), V("W")]), ("pos", "e", [V("W"), ("wild",)])]}
+        nview = {"head": ("v", [V("X")]), "body": [("pos", "e", [V("X"), ("wild",)]), ("neg", "r", [V("X"), V("X")])]}
+        progs = [
+            [view, {"head": ("__query__", bq("Y")), "body": [("pos", "r", bq("Y")), ("pos", "v", [V("Y")]), eq]}],
+            [{"head": ("__query__", bq("Y") + [V("Z")]), "body": [("pos", "r", bq("Y")), ("pos", "r", [V("Y"), V("Z")]), eq]}],
+            [{"head": ("__query__", bq("Y")), "body": [("pos", "r", bq("Y")), ("neg", "r", [V("Y"), V("Y")]), eq]}],
+            [nview, {"head": ("__query__", bq("Y")), "body": [("pos", "r", bq("Y")), ("pos", "v", [V("Y")]), eq]}],
+            [{"head": ("__query__", [V("_c0"), V("_c1"), V("Y")]),
+              "body": [("pos", "r", bq("Y")), ("pos", "r", ([V("_c1"), V("Y")] if which == 0 else [V("Y"), V("_c1")])), eq,
+                       ("cmp", V("_c1"), "=", C(2))]}],
+        ]
+        for tail in progs:
+            out.append({"rules": [dict(base), dict(rec)] + tail, "query": "__query__"})
     return out
 
 
@@ -653,6 +682,15 @@ def partition_templates():
     out.append({"rules": [{"head": ("q", [V("X"), V("Y")]), "body": [("pos", "a", [V("X"), V("Y")])]},
                           {"head": ("q", [V("X"), V("Y")]), "body": [("pos", "b", [V("Y"), V("X")]), ("cmp", V("X"), "<", V("Y"))]}], "query": "q"})
     out.append({"rules": [{"head": ("q", [V("X"), V("Y")]), "body": [("pos", "a", [V("X"), V("Y")]), ("neg", "c", [V("X")])]}], "query": "q"})
+    # unions that mix a partition-safe clause with one that joins or negates (the guard must look at every branch)
+    scan = {"head": ("q", [V("X"), V("Y")]), "body": [("pos", "a", [V("X"), V("Y")])]}
+    join = {"head": ("q", [V("X"), V("Z")]), "body": [("pos", "a", [V("X"), V("Y")]), ("pos", "b", [V("Y"), V("Z")])]}
+    neg = {"head": ("q", [V("X"), V("Y")]), "body": [("pos", "b", [V("X"), V("Y")]), ("neg", "c", [V("X")])]}
+    filt = {"head": ("q", [V("X"), V("Y")]), "body": [("pos", "b", [V("X"), V("Y")]), ("cmp", V("X"), "<", V("Y"))]}
+    for cl in ([scan, join], [join, scan], [scan, neg], [neg, scan], [filt, join], [scan, filt, join]):
+        out.append({"rules": [dict(c) for c in cl], "query": "q"})
+    out.append({"rules": [{"head": ("r", c["head"][1]), "body": c["body"]} for c in (scan, join)] +
+                         [{"head": ("q", [V("X"), V("Y")]), "body": [("pos", "r", [V("X"), V("Y")])]}], "query": "q"})
     return out
 
 
@@ -695,6 +733,17 @@ def order_templates():
                           {"head": ("q", [X]), "body": [("pos", "c", [X])]},
                           {"head": ("r", [X, V("Z")]), "body": [("pos", "e", [X, Y]), ("pos", "r", [Y, V("Z")])]},
                           {"head": ("q", [Y]), "body": [("pos", "r", [C(1), Y])]}], "query": "q"})
+    # dependencies through NEGATION between non-query heads (the dependency sort must order them too)
+    out.append({"rules": [{"head": ("v", [X]), "body": [("pos", "b", [X, ("wild",)])]},
+                          {"head": ("w", [X, Y]), "body": [("pos", "a", [X, Y]), ("neg", "v", [X])]},
+                          {"head": ("q", [X, Y]), "body": [("pos", "w", [X, Y])]}], "query": "q"})
+    out.append({"rules": [{"head": ("v", [X]), "body": [("pos", "b", [X, ("wild",)])]},
+                          {"head": ("u", [X]), "body": [("pos", "c", [X]), ("neg", "v", [X])]},
+                          {"head": ("w", [X, Y]), "body": [("pos", "a", [X, Y]), ("neg", "u", [X])]},
+                          {"head": ("q", [X, Y]), "body": [("pos", "w", [X, Y])]}], "query": "q"})
+    out.append({"rules": [{"head": ("v", [X]), "body": [("pos", "c", [X])]},
+                          {"head": ("w", [X, Y]), "body": [("pos", "a", [X, Y]), ("pos", "v", [Y]), ("neg", "v", [X])]},
+                          {"head": ("q", [X, Y]), "body": [("pos", "w", [X, Y])]}], "query": "q"})
     return out
 
 
